@@ -62,6 +62,9 @@ static std::vector<Step> parse(Toks& in)
         auto need = [&](int n) { for (int j = 0; j < n; ++j) { s.a.push_back(in.num()); } };
         auto const& o = s.op;
         if (o == "swp") { }
+        else if (o == "ctn") { need(1); }
+        else if (o == "ctv") { need(2); }
+        else if (o == "ctr") { s.xs = in.list(); }
         else {
             s.t = static_cast<int>(in.num());
             if (o == "pbr" || o == "pbc" || o == "eb" || o == "era" || o == "rsz" || o == "eif" || o == "erv" || o == "tpc" || o == "tpr"
@@ -70,7 +73,7 @@ static std::vector<Step> parse(Toks& in)
             else if (o == "icr" || o == "irv" || o == "emp" || o == "err" || o == "rsv" || o == "asn") { need(2); }
             else if (o == "inn") { need(3); }
             else if (o == "irg" || o == "mig") { need(1); s.xs = in.list(); }
-            else if (o == "asr") { s.xs = in.list(); }
+            else if (o == "asr" || o == "frp") { s.xs = in.list(); }
         }
         steps.push_back(s);
     }
@@ -127,6 +130,10 @@ static bool std_step(Step const& s, SV (&v)[2], std::size_t cap, bool movable)
         }
     }
     else if (op == "sek" || op == "fek") { std::erase(x, static_cast<int>(A(0))); }
+    else if (op == "fex") { x.clear(); }
+    else if (op == "frp") { if (s.xs.size() > cap) { return false; } x.assign(s.xs.begin(), s.xs.end()); }
+    else if (op == "ctn" || op == "ctv") { if (A(0) < 0 || A(0) > static_cast<i64>(cap)) { return false; } }
+    else if (op == "ctr") { if (s.xs.size() > cap) { return false; } }
     else { return false; }
     return true;
 }
@@ -158,9 +165,12 @@ static void sv_step(Step const& s, Vec* (&v)[2])
     else if (op == "erv") { T c(I(0)); (void)etl::erase(x, c); }
     else if (op == "sma") { auto& r = x; x = etl::move(r); }
     else if (op == "ssw") { x.swap(x); }
+    else if (op == "ctn") { Vec c(static_cast<std::size_t>(A(0))); }
     else {
         if constexpr (T::copyable) {
             if (op == "pbc") { T c(I(0)); x.push_back(c); }
+            else if (op == "ctv") { T val(I(1)); { Vec c(static_cast<std::size_t>(A(0)), val); } }
+            else if (op == "ctr") { trk::Src<T> src(s.xs); { Vec c(src.p(), src.p() + src.n); } }
             else if (op == "icr") { T c(I(1)); x.insert(x.begin() + A(0), c); }
             else if (op == "inn") { T c(I(2)); x.insert(x.begin() + A(0), static_cast<std::size_t>(A(1)), c); }
             else if (op == "irg") { trk::Src<T> src(s.xs); x.insert(x.begin() + A(0), src.p(), src.p() + src.n); }
@@ -257,6 +267,16 @@ static void set_step(Step const& s, Vec* (&v)[2])
     auto A = [&](int i) { return s.a[static_cast<std::size_t>(i)]; };
     auto I = [&](int i) { return static_cast<int>(A(i)); };
     if (op == "sir" || op == "fir") { T c(I(0)); (void)x.insert(etl::move(c)); }
+    else if (op == "fex") {
+        if constexpr (Flat) { auto c = etl::move(x).extract(); (void)c; }
+    }
+    else if (op == "frp") {
+        if constexpr (Flat) {
+            typename Vec::container_type c;
+            for (auto e : s.xs) { c.emplace_back(static_cast<int>(e)); }
+            x.replace(etl::move(c));
+        }
+    }
     else if (op == "era") { (void)x.erase(x.begin() + A(0)); }
     else if (op == "err") { (void)x.erase(x.begin() + A(0), x.begin() + A(1)); }
     else if (op == "clr") { x.clear(); }
